@@ -62,6 +62,8 @@ type server struct {
 	closeBeg int32 // OnClose callbacks entered
 	closeEnd int32 // OnClose callbacks completed
 	stopping int32 // the driver has called Stop
+	lnNet    string // network and address of one listener, as DupListener wants them
+	lnAddr   string
 	inCB     map[int64]int32
 	active   map[any][2]int64 // event loop -> (goroutine running a callback of it, nesting depth)
 }
@@ -280,7 +282,13 @@ func errStr(err error) string {
 }
 
 // probe calls the control API on the given handle and logs the results for engine state `st`
-func probeEngine(log func(kind, arg string), st string, eng gnet.Engine) {
+func probeEngine(log func(kind, arg string), st string, eng gnet.Engine, lnNet, lnAddr string) {
+	if fd, err := eng.DupListener(lnNet, lnAddr); true {
+		if err == nil {
+			_ = closeFd(fd)
+		}
+		log("api", fmt.Sprintf("%s duplistener-known %s", st, errStr(err)))
+	}
 	log("api", fmt.Sprintf("%s validate %s", st, errStr(eng.Validate())))
 	n := eng.CountConnections()
 	cs := "n"
@@ -302,7 +310,7 @@ func probeEngine(log func(kind, arg string), st string, eng gnet.Engine) {
 	log("api", fmt.Sprintf("%s duplistener-unknown %s", st, errStr(err)))
 }
 
-func (s *server) probe(st string) { probeEngine(s.log, st, s.eng) }
+func (s *server) probe(st string) { probeEngine(s.log, st, s.eng, s.lnNet, s.lnAddr) }
 
 var sockSeq int
 var hammer = os.Getenv("VERIF_HAMMER") == "1"
@@ -348,22 +356,43 @@ func runScenario(sc scenario) string {
 	base, baseTab := countFds(), fdTable()
 	hoStart()
 	// C19: a handle that was never started
-	probeEngine(s.log, "never", gnet.Engine{})
+	probeEngine(s.log, "never", gnet.Engine{}, "tcp", "127.0.0.1:1")
 	sockSeq++
 	addr, sockPath := "", ""
 	dial := func() (net.Conn, error) { return nil, nil }
+	var addrs []string
 	switch sc.proto {
 	case "unix":
 		path := fmt.Sprintf("%s/gnetverif-eng-%d-%d.sock", os.TempDir(), os.Getpid(), sockSeq)
 		addr = "unix://" + path
 		sockPath = path
+		s.lnNet, s.lnAddr = "unix", path
 		dial = func() (net.Conn, error) { return net.DialTimeout("unix", path, time.Second) }
+		defer os.Remove(path)
+	case "both": // Rotate: one engine, a TCP and a Unix-domain listener
+		path := fmt.Sprintf("%s/gnetverif-eng-%d-%d.sock", os.TempDir(), os.Getpid(), sockSeq)
+		l, _ := net.Listen("tcp", "127.0.0.1:0")
+		port := l.Addr().(*net.TCPAddr).Port
+		_ = l.Close()
+		addr = fmt.Sprintf("tcp://127.0.0.1:%d", port)
+		addrs = []string{addr, "unix://" + path}
+		sockPath = path
+		s.lnNet, s.lnAddr = "unix", path
+		turn := 0
+		dial = func() (net.Conn, error) {
+			turn++
+			if turn%2 == 0 {
+				return net.DialTimeout("unix", path, time.Second)
+			}
+			return net.DialTimeout("tcp", fmt.Sprintf("127.0.0.1:%d", port), time.Second)
+		}
 		defer os.Remove(path)
 	default:
 		l, _ := net.Listen("tcp", "127.0.0.1:0")
 		port := l.Addr().(*net.TCPAddr).Port
 		_ = l.Close()
 		addr = fmt.Sprintf("tcp://127.0.0.1:%d", port)
+		s.lnNet, s.lnAddr = "tcp", fmt.Sprintf("127.0.0.1:%d", port)
 		dial = func() (net.Conn, error) { return net.DialTimeout("tcp", fmt.Sprintf("127.0.0.1:%d", port), time.Second) }
 	}
 	opts := []gnet.Option{gnet.WithLogger(quiet{}), gnet.WithNumEventLoop(sc.loops), gnet.WithReusePort(sc.reuseport), gnet.WithTicker(sc.ticker),
@@ -371,7 +400,12 @@ func runScenario(sc scenario) string {
 	done := make(chan error, 1)
 	t0 := time.Now()
 	go func() {
-		err := gnet.Run(s, addr, opts...)
+		var err error
+		if addrs != nil {
+			err = gnet.Rotate(s, addrs, opts...)
+		} else {
+			err = gnet.Run(s, addr, opts...)
+		}
 		atomic.StoreInt32(&s.returned, 1)
 		s.log("runreturn", errStr(err))
 		done <- err
@@ -437,6 +471,13 @@ func runScenario(sc scenario) string {
 			for _, p := range peers {
 				_, _ = p.Write([]byte("x"))
 			}
+		}
+	}
+	// C07: a descriptor handed to the user by Dup / DupListener is the user's: it must survive the shutdown
+	keptFd := -1
+	if sc.source != "boot" {
+		if fd, err := s.eng.DupListener(s.lnNet, s.lnAddr); err == nil {
+			keptFd = fd
 		}
 	}
 	stopRes := "-"
@@ -556,6 +597,13 @@ func runScenario(sc scenario) string {
 		s.log("api", "down stop "+r)
 	}
 	// ---- oracles
+	if keptFd >= 0 {
+		if !fdOpen(keptFd) {
+			util.Fail("C07: a descriptor handed to the user by DupListener was closed by the framework during shutdown")
+		} else {
+			_ = closeFd(keptFd)
+		}
+	}
 	// C07: descriptors the engine created are closed and the Unix-socket file is removed when Run returns
 	ho := ""
 	if !hammer && base > 0 && sc.source != "regrace" {
@@ -675,7 +723,7 @@ func main() {
 				nconn = r.Pick(1, 2, 3, 5)
 			}
 			hist[src]++
-			fmt.Fprintf(&b, "case %d\nlife %s %d %d %d %d %s %d %d\n", i, []string{"unix", "tcp"}[r.Intn(2)], r.Pick(1, 2, 4), r.Intn(2), ticker, nconn, src, r.Intn(2), r.Intn(3))
+			fmt.Fprintf(&b, "case %d\nlife %s %d %d %d %d %s %d %d\n", i, []string{"unix", "tcp", "tcp", "both"}[r.Intn(4)], r.Pick(1, 2, 4), r.Intn(2), ticker, nconn, src, r.Intn(2), r.Intn(3))
 		}
 		// client lives
 		modes := []string{"stop", "peerclose", "localclose", "wake", "zone"}
